@@ -93,11 +93,24 @@ func (c c14Case) goLine() string {
 			}
 		}
 	}
-	if c.Extra != "" {
-		if c.ExtraFirst {
-			return "go " + c.Extra + strings.TrimPrefix(sb.String(), "go")
+	extra := c.Extra
+	if n, ok := strings.CutPrefix(extra, "searchmoves@"); ok {
+		// a restriction of the root moves (the engine may ignore it): moves legal
+		// in the stub leg's fixed roots; dropped in the real-search leg
+		mv := []string{"d2d4", "b1c3", "f1c4"}
+		if !c.White {
+			mv = []string{"b8c6", "g8f6", "d7d6"}
 		}
-		sb.WriteString(" " + c.Extra)
+		extra = ""
+		if c.FEN == "" {
+			extra = "searchmoves " + strings.Join(mv[:int(n[0]-'0')], " ")
+		}
+	}
+	if extra != "" {
+		if c.ExtraFirst {
+			return "go " + extra + strings.TrimPrefix(sb.String(), "go")
+		}
+		sb.WriteString(" " + extra)
 	}
 	return sb.String()
 }
@@ -195,7 +208,7 @@ func genC14Cases(rng *rand.Rand, n int, boundary []int64) []c14Case {
 			base.NumFmt = 1 + rng.IntN(2)
 		}
 		if rng.IntN(5) == 0 {
-			base.Extra = pick(rng, []string{"depth 64", "depth 60", "nodes 2000000000", "depth 63 nodes 1000000000"})
+			base.Extra = pick(rng, []string{"depth 64", "depth 60", "nodes 2000000000", "depth 63 nodes 1000000000", "searchmoves@1", "searchmoves@2", "searchmoves@3"})
 			base.ExtraFirst = rng.IntN(2) == 0
 		}
 		if rng.IntN(3) == 0 {
